@@ -540,3 +540,29 @@ package factstore
 //@   modifies tstate(self)
 //@ func (self ReadOnlyTemporalFactStore) EstimateFactCount()
 //@   modifies nothing
+
+// ---- C13: TemporalStore.Add - validity, per-atom limit, duplicates, count ----------------------------------------
+// What Add needs of the store: the tree already filed under the atom (if any) is a valid interval tree, inner maps
+// are not nil, the counter has room. (Instance of the store invariant "every stored tree is valid" for this atom.)
+//@ spec func tsOKfor(s *TemporalStore, a ast.Atom) bool = s.facts != nil && s.atoms != nil && 0 <= s.count && s.count < 4611686018427387904 &&
+//@      (a.Predicate in s.facts ==> s.facts[a.Predicate] != nil) &&
+//@      (a.Predicate in s.facts && a.Hash() in s.facts[a.Predicate] ==> s.facts[a.Predicate][a.Hash()] != nil && valid(s.facts[a.Predicate][a.Hash()].root))
+//@ func NewIntervalTree()
+//@   trusted
+//@   opt freshresult
+//@   modifies nothing
+//@   ensures result != nil && result.root == nil && result.size == 0
+//@ func (t *IntervalTree) Size()
+//@   pure
+//@   requires t != nil
+//@   ensures result == t.size
+// An interval whose start lies after its end is refused with an error; an insertion happens only while the atom has
+// fewer intervals than the limit; the store's count moves by exactly one for an accepted new interval and not at all
+// otherwise (duplicate, error).
+//@ func (s *TemporalStore) Add(atom, interval)
+//@   requires s != nil && tsOKfor(s, atom)
+//@   guard call Insert: s.maxIntervalsPerAtom > 0 ==> tree.size < s.maxIntervalsPerAtom
+//@   ensures conc(interval) && interval.Start.Timestamp > interval.End.Timestamp ==> err != nil
+//@   ensures err != nil ==> !result && s.count == old(s.count)
+//@   ensures err == nil && result ==> s.count == old(s.count) + 1
+//@   ensures err == nil && !result ==> s.count == old(s.count)
